@@ -205,6 +205,8 @@ def explore(prop, tier, seed, work):
             agg['crashed'].append({'interp': r['interp'], 'shard': r['shard'], 'log': open(os.path.join(d, 'log.txt')).read()[-1500:]})
             continue
         st = json.load(open(os.path.join(d, 'stats.json')))
+        if st.get('harness_errors'):
+            agg['crashed'].append({'interp': r['interp'], 'shard': r['shard'], 'harness_errors': st['harness_errors'], 'log': st.get('_harness_error')})
         for k, v in st.items():
             if k.startswith('_'):
                 continue
